@@ -30,6 +30,10 @@ where
 }
 
 pub fn run_case(mode: &str, seed: u64, keep_log: bool) -> (CaseResult, Vec<String>) {
+    crate::kit::entropy::isolated(seed, || run_case_inner(mode, seed, keep_log))
+}
+
+fn run_case_inner(mode: &str, seed: u64, keep_log: bool) -> (CaseResult, Vec<String>) {
     kit::panics::take();
     let (mut res, log) = match mode {
         "noise" => one(seed, |s| noise::run_benign(seed, s, keep_log)),
